@@ -10,8 +10,11 @@
      Remove(v): unstore v and mark it deleted (shard lock) ; load ep ;
                 if ep = v: choose a non-deleted neighbour - or, if none, the
                 fallback scan of the vertices map - then CAS(ep, v -> choice) ; unlink
-     Search:    load ep ; collect the non-deleted vertices reachable from it (the
-                start vertex itself is not filtered)
+     Search:    load ep ; collect the non-deleted vertices reachable from it.  StartFiltered says
+                whether the start vertex itself is subject to that filter (as shipped: FALSE - the
+                vertex searchLevel starts from is a result unconditionally; a Remove of the entry
+                point unstores and tombstones it first and hands the entry point over later, so in
+                between every search starts from a tombstone and returns it: SearchLive)
 
    The vertices map and the counters are updated atomically under the shard lock, so
    per id the outcomes of inserts and removes linearize at that step by construction
@@ -20,11 +23,12 @@
    although items are stored (QuiescentEpLive); with a single writer and any number
    of readers - the way the server uses the index - it cannot. *)
 EXTENDS Integers, Sequences, FiniteSets, TLC
-CONSTANTS SafeHandOver,               \* TRUE: hand-over re-validated, a stored vertex adopts an empty index (repaired); FALSE: as shipped
+CONSTANTS StartFiltered,
+          SafeHandOver,               \* TRUE: hand-over re-validated, a stored vertex adopts an empty index (repaired); FALSE: as shipped
           Threads, Prog, Initial     \* Prog : [Threads -> <<op, v>>], Initial: vertices stored before the threads start
 Nil == 0
-VARIABLES stored, del, ep, nbr, len, pc, loc, seen, cur
-vars == <<stored, del, ep, nbr, len, pc, loc, seen, cur>>
+VARIABLES stored, del, ep, nbr, len, pc, loc, seen, cur, del0
+vars == <<stored, del, ep, nbr, len, pc, loc, seen, cur, del0>>
 Vs == {Prog[t][2] : t \in Threads} \cup Initial
 
 Init == /\ stored = Initial /\ del = {} /\ len = Cardinality(Initial)
@@ -32,6 +36,7 @@ Init == /\ stored = Initial /\ del = {} /\ len = Cardinality(Initial)
         /\ nbr = [v \in Vs |-> IF v \in Initial THEN Initial \ {v} ELSE {}]
         /\ pc = [t \in Threads |-> Prog[t][1] \o ".0"] /\ loc = [t \in Threads |-> Nil]
         /\ seen = [t \in Threads |-> {}] /\ cur = [t \in Threads |-> Prog[t][2]]
+        /\ del0 = [t \in Threads |-> {}]
 Op(t) == Prog[t][1]
 V(t) == Prog[t][2]
 Goto(t, l) == pc' = [pc EXCEPT ![t] = l]
@@ -40,27 +45,27 @@ Goto(t, l) == pc' = [pc EXCEPT ![t] = l]
 Ins0(t) == /\ pc[t] = "ins.0"          \* read ep, then store (the store is atomic under the shard lock)
            /\ stored' = stored \cup {V(t)} /\ len' = len + 1
            /\ Goto(t, IF ep = Nil THEN "ins.cas" ELSE "ins.load")
-           /\ UNCHANGED <<del, ep, nbr, loc, seen, cur>>
+           /\ UNCHANGED <<del, ep, nbr, loc, seen, cur, del0>>
 InsCas(t) == /\ pc[t] = "ins.cas"
              /\ IF ep = Nil THEN ep' = V(t) /\ Goto(t, "done") ELSE UNCHANGED ep /\ Goto(t, "ins.load")
-             /\ UNCHANGED <<stored, del, nbr, len, loc, seen, cur>>
+             /\ UNCHANGED <<stored, del, nbr, len, loc, seen, cur, del0>>
 InsLoad(t) == /\ pc[t] = "ins.load"
               /\ IF ep # Nil
                  THEN loc' = [loc EXCEPT ![t] = ep] /\ Goto(t, "ins.link") /\ UNCHANGED ep
                  ELSE /\ SafeHandOver            \* as shipped: a nil dereference (NoNilDeref), the thread is stuck here
                       /\ ep' = V(t) /\ Goto(t, "done") /\ UNCHANGED loc
-              /\ UNCHANGED <<stored, del, nbr, len, seen, cur>>
+              /\ UNCHANGED <<stored, del, nbr, len, seen, cur, del0>>
 InsLink(t) == /\ pc[t] = "ins.link"
               /\ LET ns == {n \in stored \ {V(t)} : n \notin del} \cup {loc[t]}
                  IN nbr' = [v \in Vs |-> IF v = V(t) THEN ns ELSE IF v \in ns THEN nbr[v] \cup {V(t)} ELSE nbr[v]]
               /\ IF SafeHandOver /\ ep = Nil THEN ep' = V(t) ELSE UNCHANGED ep
-              /\ Goto(t, "done") /\ UNCHANGED <<stored, del, len, loc, seen, cur>>
+              /\ Goto(t, "done") /\ UNCHANGED <<stored, del, len, loc, seen, cur, del0>>
 \* ---- Remove
 Rem0(t) == /\ pc[t] = "rem.0"
            /\ IF V(t) \in stored
               THEN /\ stored' = stored \ {V(t)} /\ del' = del \cup {V(t)} /\ len' = len - 1 /\ Goto(t, "rem.load")
-              ELSE /\ UNCHANGED <<stored, del, len, cur>> /\ Goto(t, "done")      \* not found
-           /\ UNCHANGED <<ep, nbr, loc, seen, cur>>
+              ELSE /\ UNCHANGED <<stored, del, len, cur, del0>> /\ Goto(t, "done")      \* not found
+           /\ UNCHANGED <<ep, nbr, loc, seen, cur, del0>>
 RemLoad(t) == /\ pc[t] = "rem.load"
               /\ IF ep = cur[t]
                  THEN LET c == {n \in nbr[cur[t]] : n \notin del}
@@ -68,7 +73,7 @@ RemLoad(t) == /\ pc[t] = "rem.load"
                                                       ELSE IF stored # {} THEN CHOOSE n \in stored : TRUE ELSE Nil]
                          /\ Goto(t, "rem.cas")
                  ELSE /\ UNCHANGED loc /\ Goto(t, "rem.unlink")
-              /\ UNCHANGED <<stored, del, ep, nbr, len, seen, cur>>
+              /\ UNCHANGED <<stored, del, ep, nbr, len, seen, cur, del0>>
 RemCas(t) == /\ pc[t] = "rem.cas"
              /\ IF ep = cur[t]
                 THEN /\ ep' = IF SafeHandOver /\ loc[t] = Nil /\ stored # {} THEN CHOOSE n \in stored : TRUE ELSE loc[t]   \* repaired: re-scan after a nil hand-over
@@ -76,18 +81,19 @@ RemCas(t) == /\ pc[t] = "rem.cas"
                      /\ IF SafeHandOver /\ loc[t] # Nil /\ loc[t] \in del
                         THEN cur' = [cur EXCEPT ![t] = loc[t]] /\ Goto(t, "rem.load")
                         ELSE UNCHANGED cur /\ Goto(t, "rem.unlink")
-                ELSE UNCHANGED <<ep, cur>> /\ Goto(t, "rem.unlink")
-             /\ UNCHANGED <<stored, del, nbr, len, loc, seen>>
+                ELSE UNCHANGED <<ep, cur, del0>> /\ Goto(t, "rem.unlink")
+             /\ UNCHANGED <<stored, del, nbr, len, loc, seen, del0>>
 RemUnlink(t) == /\ pc[t] = "rem.unlink"
                 /\ nbr' = [v \in Vs |-> IF v \in nbr[V(t)] THEN nbr[v] \ {V(t)} ELSE nbr[v]]
-                /\ Goto(t, "done") /\ UNCHANGED <<stored, del, ep, len, loc, seen, cur>>
+                /\ Goto(t, "done") /\ UNCHANGED <<stored, del, ep, len, loc, seen, cur, del0>>
 \* ---- Search
 Srch0(t) == /\ pc[t] = "search.0"
             /\ loc' = [loc EXCEPT ![t] = ep] /\ Goto(t, IF ep = Nil THEN "done" ELSE "search.1")
+            /\ del0' = [del0 EXCEPT ![t] = del]        \* what had been removed when the search began
             /\ UNCHANGED <<stored, del, ep, nbr, len, seen, cur>>
 Srch1(t) == /\ pc[t] = "search.1"
-            /\ seen' = [seen EXCEPT ![t] = {loc[t]} \cup {n \in nbr[loc[t]] : n \notin del}]
-            /\ Goto(t, "done") /\ UNCHANGED <<stored, del, ep, nbr, len, loc, cur>>
+            /\ seen' = [seen EXCEPT ![t] = (IF StartFiltered /\ loc[t] \in del THEN {} ELSE {loc[t]}) \cup {n \in nbr[loc[t]] : n \notin del}]
+            /\ Goto(t, "done") /\ UNCHANGED <<stored, del, ep, nbr, len, loc, cur, del0>>
 
 Next == \E t \in Threads : Ins0(t) \/ InsCas(t) \/ InsLoad(t) \/ InsLink(t) \/ Rem0(t) \/ RemLoad(t) \/ RemCas(t)
                             \/ RemUnlink(t) \/ Srch0(t) \/ Srch1(t)
@@ -96,6 +102,8 @@ Spec == Init /\ [][Next]_vars
 Quiescent == \A t \in Threads : pc[t] = "done"
 LenOK == len = Cardinality(stored)
 QuiescentEpLive == Quiescent => (IF stored = {} THEN TRUE ELSE ep \in stored /\ ep \notin del)
+\* a search returns nothing that had already been removed (unstored: the id is free for a new insert) when it began
+SearchLive == \A t \in Threads : seen[t] \cap del0[t] = {}
 NoNilDeref == SafeHandOver \/ \A t \in Threads : pc[t] = "ins.load" => ep # Nil
 \* the only way to be stuck is to be done (no lock is held across steps)
 NoDeadlock == ~Quiescent => ENABLED Next
